@@ -126,6 +126,14 @@ CLAIMS["C06"] = (
     "string contents.",
     "DESIGN.md §4 C06")
 
+CLAIMS["C01"] = (
+    "Solver verdict that, for every content of a short hostile reply (5 fully symbolic bytes, or the protocol's magic plus "
+    "2-8 symbolic bytes, or an empty datagram) followed by silence, the listed query entry points return a value: every "
+    "panic, unwrap, out-of-bounds index, arithmetic overflow and loop bound is a proof obligation discharged by CBMC.",
+    "Trusted: hooks H2-H4, listed stubs. Bounded hard: replies <= ~18 bytes, one hostile datagram; the text-splitting "
+    "parsers (GameSpy 1/2, Quake, Unreal 2 lists, Java JSON) are only covered for empty replies in the quick tier.",
+    "DESIGN.md §4 C01")
+
 ALL = ["C%02d" % i for i in range(1, 21)]
 
 DEFAULT_NA = "check not built yet in this revision (work in progress; see DESIGN.md for the plan)"
